@@ -106,6 +106,9 @@ func c09BuildRun(env *core.Env, dir, src, target string) *c09Run {
 			return out
 		}
 		out.term = map[string]string{"ok": "ok", "trap": "panic", "timeout": "timeout", "linkerror": "linkerror"}[w.Status]
+		if d := os.Getenv("VERIF_C09_DUMP"); d != "" && w.Status == "linkerror" {
+			os.WriteFile(d+".link", []byte(src+"\n/*\n"+w.Msg+"\n*/\n"), 0o644)
+		}
 		out.lines = w.Lines
 		return out
 	}
